@@ -26,7 +26,7 @@ const (
 	maxTasks  = 24
 	maxLocks  = 64
 	maxWgs    = 16
-	maxPoints = 4096
+	maxPoints = 65536
 )
 
 const (
@@ -208,14 +208,18 @@ func yield() {
 	}
 }
 
-// EvalPoints makes every expression evaluation (vrt.Point("eval") at the top of query.Evaluate) a scheduling
+// EvalPoints makes every expression evaluation (vrt.Point("eval") at the top of query.Evaluate) and every loop
+// iteration in lib/query (vrt.Point("loop")) a scheduling
 // point: two accesses to a buffer shared by mistake between workers then have a point between them. Off by
 // default (C13 does not need it: the race detector sees such accesses wherever the switches are).
 var EvalPoints bool
 
+// LoopPoints does the same for every loop iteration in lib/query (vrt.Point("loop") at the top of each loop body).
+var LoopPoints bool
+
 //go:norace
 func (impl) Point(kind string) {
-	if kind == "eval" && !EvalPoints {
+	if (kind == "eval" && !EvalPoints) || (kind == "loop" && !LoopPoints) {
 		return
 	}
 	yield()
